@@ -7,7 +7,10 @@ open MgModel MgModel.C10 MgModel.Driver
 
 structure St where
   heap : Option Heap := none
-  spec : List Elem := []          -- specification state of the heap: multiset of entries
+  spec : List Int := []           -- specification state of the heap: multiset of keys
+  specOk : Bool := true           -- false once a remove-by-node-index happened: which key a
+                                  -- node index denotes is not determined by the multiset
+                                  -- specification, so the spec column is no longer printed
   arr  : Array Elem := #[]        -- pending input array of the sorts
 
 def showElem (e : Elem) : String := s!"{e.1}:{e.2}"
@@ -31,11 +34,23 @@ def runSort (alg : String) (a : Array Elem) (orig : Bool) : Option (Except Err (
   else if alg = "quick" then some (((if orig then quickSortOrig a else quickSort a)).map some)
   else none
 
-def removeBy (st : St) (h : Heap) (idx : Nat) (pre : String) : St × String :=
+def removeBy (st : St) (h : Heap) (idx : Nat) (pre : String) (byKey : Bool) : St × String :=
   match h.remove idx with
   | .error e => (st, showErr e)
   | .ok none => (st, "fail")
-  | .ok (some (r, h')) => ({ st with heap := some h', spec := st.spec.erase r }, pre ++ showElem r)
+  | .ok (some (r, h')) =>
+    ({ st with heap := some h', spec := st.spec.erase r.1, specOk := st.specOk && byKey },
+      pre ++ showElem r)
+
+/-- minimum of a list of keys -/
+def minOf : List Int → Option Int
+  | [] => none
+  | x :: l => match minOf l with
+    | none => some x
+    | some k => some (if x ≤ k then x else k)
+
+/-- append the specification column while it is determined -/
+def withSpec (st : St) (m sp : String) : String := if st.specOk then s!"{m} | {sp}" else m
 
 def stepLine (st : St) : List String → St × String
   | "a" :: ks =>
@@ -65,8 +80,8 @@ def stepLine (st : St) : List String → St × String
     | none => (st, "bad-op")
     | some c =>
       match Heap.init c with
-      | some h => ({ st with heap := some h, spec := [] }, "ok | ok")
-      | none => ({ st with heap := none, spec := [] }, "fail")
+      | some h => ({ st with heap := some h, spec := [], specOk := true }, "ok | ok")
+      | none => ({ st with heap := none, spec := [], specOk := true }, "fail | fail")
   | op :: args =>
     match st.heap with
     | none => (st, "bad-op")
@@ -78,24 +93,24 @@ def stepLine (st : St) : List String → St × String
           match h.insert (k, v) with
           | .error e => (st, showErr e)
           | .ok none => (st, "fail")
-          | .ok (some h') => ({ st with heap := some h', spec := (k, v) :: st.spec }, "ok")
+          | .ok (some h') => ({ st with heap := some h', spec := k :: st.spec }, "ok")
         | _, _ => (st, "bad-op")
       | "root", [] =>
         match h.root with
         | .error e => (st, showErr e)
-        | .ok none => (st, if st.spec.isEmpty then "none | none" else "none | some")
+        | .ok none => (st, withSpec st "none" (if st.spec.isEmpty then "none" else "some"))
         | .ok (some r) => (st, showElem r)
       | "minkey", [] =>
-        let sp := match minKey? st.spec with | none => "none" | some k => toString k
+        let sp := match minOf st.spec with | none => "none" | some k => toString k
         match h.root with
         | .error e => (st, showErr e)
-        | .ok none => (st, s!"none | {sp}")
-        | .ok (some r) => (st, s!"{r.1} | {sp}")
+        | .ok none => (st, withSpec st "none" sp)
+        | .ok (some r) => (st, withSpec st (toString r.1) sp)
       | "ext", [] =>
         match h.extract with
         | .error e => (st, showErr e)
-        | .ok none => (st, if st.spec.isEmpty then "none | none" else "none | some")
-        | .ok (some (r, h')) => ({ st with heap := some h', spec := st.spec.erase r }, showElem r)
+        | .ok none => (st, withSpec st "none" (if st.spec.isEmpty then "none" else "some"))
+        | .ok (some (r, h')) => ({ st with heap := some h', spec := st.spec.erase r.1 }, showElem r)
       | "find", [k] =>
         match k.toInt? with
         | none => (st, "bad-op")
@@ -108,11 +123,11 @@ def stepLine (st : St) : List String → St × String
         match k.toInt? with
         | none => (st, "bad-op")
         | some k =>
-          let sp := showBool (st.spec.any (fun e => e.1 == k))
+          let sp := showBool (st.spec.any (fun e => e == k))
           match h.find k with
           | .error e => (st, showErr e)
-          | .ok none => (st, s!"0 | {sp}")
-          | .ok (some _) => (st, s!"1 | {sp}")
+          | .ok none => (st, withSpec st "0" sp)
+          | .ok (some _) => (st, withSpec st "1" sp)
       | "rm", [k] =>
         match k.toInt? with
         | none => (st, "bad-op")
@@ -120,14 +135,14 @@ def stepLine (st : St) : List String → St × String
           match h.find k with
           | .error e => (st, showErr e)
           | .ok none => (st, "none")
-          | .ok (some i) => removeBy st h i s!"ok {i} "
+          | .ok (some i) => removeBy st h i s!"ok {i} " true
       | "rmi", [i] =>
         match i.toNat? with
         | none => (st, "bad-op")
-        | some i => removeBy st h i "ok "
-      | "rml", [] => removeBy st h h.size "ok "
-      | "size", [] => (st, s!"{h.size} | {st.spec.length}")
-      | "empty", [] => (st, s!"{showBool (h.size == 0)} | {showBool st.spec.isEmpty}")
+        | some i => removeBy st h i "ok " false
+      | "rml", [] => removeBy st h h.size "ok " false
+      | "size", [] => (st, withSpec st (toString h.size) (toString st.spec.length))
+      | "empty", [] => (st, withSpec st (showBool (h.size == 0)) (showBool st.spec.isEmpty))
       | "clear", [] => ({ st with heap := some h.clear, spec := [] }, s!"ok {h.size}")
       | "ens", [c] =>
         match c.toNat? with
